@@ -86,6 +86,59 @@ def native(tier, seed, scratch):
         cov["counters"]["c_functions_not_reached"] = sum(1 for v in fc.values() if v[0] == 0)
     except Exception as e:       # coverage is evidence only, never a verdict
         cov["coverage_error"] = repr(e)[:300]
+    # coverage-guided stage: libFuzzer + ASan + UBSan on the same driver body, every setting chosen independently
+    fexe = native_build.fuzz(tree, out)
+    if fexe is None:
+        cov["counters"]["skipped:libfuzzer"] = 1
+    else:
+        nproc, runs = (8, 4000) if tier == "quick" else (16, 150000)
+        fenv = dict(os.environ)
+        fenv["ASAN_OPTIONS"] = "detect_leaks=0:redzone=256"
+        fenv["UBSAN_OPTIONS"] = "print_stacktrace=1"
+        fps = []
+        for k in range(nproc):
+            d = out / ("fuzz%d" % k)
+            (d / "corpus").mkdir(parents=True, exist_ok=True)
+            fo = open(d / "stderr.txt", "w+")
+            fps.append((d, fo, subprocess.Popen([str(fexe), "-runs=%d" % runs, "-seed=%d" % (1000 * seed + k + 1), "-max_len=96",
+                                                 "-len_control=0", "-print_final_stats=1", "-artifact_prefix=%s/" % d,
+                                                 str(d / "corpus")], stdout=subprocess.DEVNULL, stderr=fo, env=fenv, cwd=d)))
+        for k, (d, fo, p) in enumerate(fps):
+            try:
+                p.wait(timeout=1500 if tier == "quick" else 7000)
+            except subprocess.TimeoutExpired:
+                p.kill()
+                inconc.append("libFuzzer job %d exceeded the wall-clock watchdog" % k)
+                continue
+            fo.seek(0)
+            se = fo.read()
+            fo.close()
+            m = re.search(r"stat::number_of_executed_units: (\d+)", se)
+            nexec = int(m.group(1)) if m else 0
+            cov["counters"]["fuzz_executions"] = cov["counters"].get("fuzz_executions", 0) + nexec
+            cov["evaluations"] += nexec
+            covs = re.findall(r"cov: (\d+) ft: (\d+) corp: (\d+)", se)
+            if covs:
+                cov["counters"]["fuzz_edges_covered_max"] = max(cov["counters"].get("fuzz_edges_covered_max", 0), int(covs[-1][0]))
+                cov["counters"]["fuzz_features_max"] = max(cov["counters"].get("fuzz_features_max", 0), int(covs[-1][1]))
+                cov["counters"]["fuzz_corpus_units"] = cov["counters"].get("fuzz_corpus_units", 0) + int(covs[-1][2])
+                cov["nontrivial"] += ["fuzz/%d/%d" % (k, i) for i in range(int(covs[-1][2]))]
+            arts = sorted(x for x in d.iterdir() if x.name.startswith(("crash-", "timeout-", "oom-", "leak-")))
+            if p.returncode != 0 or arts:
+                reps = parse_sanitizer(se)
+                art = arts[0].read_bytes() if arts else b""
+                if arts and arts[0].name.startswith(("timeout-", "oom-")):
+                    inconc.append("libFuzzer job %d: %s" % (k, arts[0].name))
+                    continue
+                kind = "sanitizer:" + reps[0]["kind"] if reps else "crash"
+                where = reps[0]["where"] if reps else "libFuzzer rc=%s" % p.returncode
+                if (kind, where) not in seen:
+                    seen[(kind, where)] = True
+                    viol.append(dict(prop="C08", kind=kind, fn=where, flavour="libfuzzer-asan",
+                                     report=(reps[0]["text"][:1800] if reps else se[-1800:]),
+                                     fuzz_input_hex=art.hex(), how_to_replay="drive_fuzz <file holding these bytes>"))
+            elif not m:
+                inconc.append("libFuzzer job %d produced no statistics" % k)
     if tier == "thorough":
         vexe = native_build.drive(tree, out, "plain")
         vp = [subprocess.Popen(["valgrind", "-q", "--error-exitcode=9", "--track-origins=no", str(vexe), "4", str(sh), "8",
